@@ -703,6 +703,45 @@ class Engine:
                 raise Unsupported(f"with-statement at line {node.lineno}")
         return self.exec_block(node.body, state, fid)
 
+    def st_Try(self, node, state, fid):
+        """try / except: a raise outcome of the body whose class a handler names continues in that handler"""
+        if node.finalbody:
+            raise Unsupported(f"try/finally at line {node.lineno}")
+
+        def names_of(t):
+            if t is None:
+                return None  # bare except
+            if isinstance(t, ast.Tuple):
+                out = set()
+                for e in t.elts:
+                    out |= names_of(e) or set()
+                return out
+            if isinstance(t, ast.Name):
+                return {t.id}
+            if isinstance(t, ast.Attribute):
+                return {t.attr}
+            raise Unsupported(f"exception class expression at line {node.lineno}")
+
+        outs = []
+        for s2, oc in self.exec_block(node.body, state, fid):
+            if oc.kind == "raise":
+                handled = False
+                for h in node.handlers:
+                    nm = names_of(h.type)
+                    if nm is None or oc.value.cls in nm or "Exception" in nm or "BaseException" in nm:
+                        if h.name:
+                            self.setvar(s2, fid, h.name, Opaque(f"exc:{oc.value.cls}"))
+                        outs.extend(self.exec_block(h.body, s2, fid))
+                        handled = True
+                        break
+                if not handled:
+                    outs.append((s2, oc))
+            elif oc.kind == "normal" and node.orelse:
+                outs.extend(self.exec_block(node.orelse, s2, fid))
+            else:
+                outs.append((s2, oc))
+        return outs
+
     def st_AnnAssign(self, node, state, fid):
         if node.value is None:
             return [(state, NORMAL)]
@@ -853,6 +892,8 @@ class Engine:
             return V.cmp("!=", v, 0)
         if V.is_concrete_num(v):
             return v != 0
+        if isinstance(v, Cx):
+            return V.b_or(self.truthy(state, v.re), self.truthy(state, v.im))
         if v is None:
             return False
         if isinstance(v, str):
@@ -1607,6 +1648,8 @@ class Engine:
                 return obj.re
             if attr == "imag":
                 return obj.im
+            if attr == "item":
+                return BoundMethod(base, attr)
         if V.is_scalar(obj):
             if attr == "real":
                 return obj
